@@ -1,4 +1,5 @@
 import ACModel.Model.Carve
+import ACModel.Model.Combinations
 /-
   From tables to rows: helper lemmas that tie the per-modality table the carving search works on
   (`Carve.grouper`, `Carve.freqs`) to a column of rows.  Used by `Props/C02.lean` to restate the
@@ -188,5 +189,37 @@ theorem nodup_of_mem_flatten : ∀ (comb : List (List String)), comb.flatten.Nod
     rcases List.mem_cons.1 hg with rfl | h
     · exact hnd.1
     · exact nodup_of_mem_flatten rest hnd.2.1 g h
+
+open Comb in
+theorem addAt_flatten_perm (nan : String) : ∀ (n : Nat) (c : List (List String)), n < c.length →
+    (addAt nan n c).flatten.Perm (nan :: c.flatten)
+  | _, [], h => by simp at h
+  | 0, g :: t, _ => by
+    simp only [addAt, List.flatten_cons, List.append_assoc]
+    have : (g ++ ([nan] ++ t.flatten)).Perm (([nan] ++ t.flatten) ++ g) := List.perm_append_comm
+    refine this.trans ?_
+    simp only [List.cons_append]
+    exact List.Perm.cons _ List.perm_append_comm
+  | n + 1, g :: t, h => by
+    simp only [addAt, List.flatten_cons]
+    have ih := addAt_flatten_perm nan n t (by simpa using h)
+    have h1 : (g ++ (addAt nan n t).flatten).Perm (g ++ (nan :: t.flatten)) := List.Perm.append_left g ih
+    refine h1.trans ?_
+    exact List.perm_middle
+
+open Comb in
+theorem addAt_nonempty (nan : String) : ∀ (n : Nat) (c : List (List String)), (∀ g ∈ c, g ≠ []) →
+    ∀ g ∈ addAt nan n c, g ≠ []
+  | _, [], _, g, hg => by simp [addAt] at hg
+  | 0, g0 :: t, h, g, hg => by
+    simp only [addAt, List.mem_cons] at hg
+    rcases hg with rfl | hg
+    · simp
+    · exact h g (List.mem_cons_of_mem _ hg)
+  | n + 1, g0 :: t, h, g, hg => by
+    simp only [addAt, List.mem_cons] at hg
+    rcases hg with rfl | hg
+    · exact h _ (List.mem_cons_self ..)
+    · exact addAt_nonempty nan n t (fun g' hg' => h g' (List.mem_cons_of_mem _ hg')) g hg
 
 end RowLemmas
